@@ -335,12 +335,18 @@ def _constants(ctx, thorough: bool):
         rc, err = clang_check(sc, 'together_rev.cc', ''.join(f'#include "{v["filename"]}"\n' for v in reversed(list(hs.values()))))
         run.add('C06.constants', mod, 'create_header', 'all six together (reverse order)', rc == 0,
                 'inclusion order does not matter' if rc == 0 else f'reverse inclusion order: {first_error(err)}')
+        _odr_rule(ctx, sc, hs, allinc)
         if thorough:
             rc, err = clang_check(sc, 'two_prefixes.cc', allinc + ''.join(f'#include "{v["filename"]}"\n' for v in hs2.values()))
             run.add('C06.constants', mod, 'create_header', 'two namespace prefixes in one TU', rc == 0,
                     'support headers generated with different prefixes coexist' if rc == 0 else
                     f'two prefixes in one TU: {first_error(err)}')
             ns = hs['strict_port']['namespace']
+            cap_is_template = bool(re.search(r'template\s*<[^>]*>\s*(?:\[\[nodiscard\]\]\s*)?[\w:<>&\* ]+\s+CapitalizeFirstChar\s*\(',
+                                             hs['misc_utils']['contents']))
+            cap_inst = (f'template std::string {ns}::CapitalizeFirstChar<std::string>(const std::string&);\n'
+                        f'template std::wstring {ns}::CapitalizeFirstChar<std::wstring>(const std::wstring&);\n') if cap_is_template else \
+                f'std::string use_cap() {{ return {ns}::CapitalizeFirstChar(std::string("x")); }}\n'
             inst = allinc + '#include <mock_port.hh>\n' + f'''
 template struct {ns}::MultiClientSelector<MockPort>;
 template struct {ns}::MutexWrapped<int>;
@@ -351,9 +357,7 @@ template MockPort {ns}::CreateProvidedPort<MockPort>(const std::string&);
 template MockPort {ns}::CreateRequiredPort<MockPort>(const std::string&);
 template void {ns}::ConnectPorts<MockPort>({ns}::Sts<MockPort>, {ns}::Sts<MockPort>);
 template void {ns}::ConnectPorts<MockPort>({ns}::Mts<MockPort>, {ns}::Mts<MockPort>);
-template std::string {ns}::CapitalizeFirstChar<std::string>(const std::string&);
-template std::wstring {ns}::CapitalizeFirstChar<std::wstring>(const std::wstring&);
-void use() {{
+{cap_inst}void use() {{
   {ns}::ILog log;
   {ns}::ILogWithContext ctx("c", log);
   ctx.check_bindings();
@@ -363,17 +367,68 @@ void use() {{
             run.add('C06.constants', mod, 'create_header', 'explicit instantiation against the mock port', rc == 0,
                     'every template of the support headers instantiates against a Dezyne-shaped port' if rc == 0 else
                     f'explicit instantiation: {first_error(err)}')
-            # ODR: a non-template, non-inline function defined at namespace scope of a header breaks multi-TU programs
-            for m, v in hs.items():
-                body = v['contents']
-                bad = re.findall(r'^(?!template)(?:[\w:<>&\*\s]+?)\s+(\w+)\s*\([^;{]*\)\s*\n?\{', body, flags=re.M)
-                bad = [b for b in bad if b not in ('if', 'for', 'while', 'switch')]
-                # only namespace-scope, non-template, non-inline definitions count: approximated by column-0 definitions
-                col0 = [b for b in re.findall(r'^(?:inline\s+)?[\w:<>&\*]+\s+(\w+)\s*\([^;{)]*\)\s*\n\{', body, flags=re.M)]
-                prev_template = re.findall(r'template\s*<[^>]*>\s*\n(?:\[\[nodiscard\]\]\s*)?[\w:<>&\*]+\s+(\w+)\s*\(', body)
-                offenders = [b for b in col0 if b not in prev_template]
-                run.add('C06.constants', f'{mod}.{m}', 'create_header', f'{v["filename"]} ODR', not offenders,
-                        'no non-template, non-inline function definition at namespace scope' if not offenders else
-                        f'non-inline function(s) {offenders} defined in a header: two translation units including it violate the ODR')
     run.floor('C06.constants', 14)
     run.floor('C06.guard', 7)
+
+
+def _odr_rule(ctx, sc, hs, allinc: str):
+    """C06.odr - every function / variable DEFINITION at namespace scope of a support header is a template, inline,
+    constexpr or has internal linkage; otherwise two translation units of one program that include the header (the shell's
+    own source and the user's file) define it twice.  Decided on clang's JSON AST of a TU that includes all six headers."""
+    from ..embedded_cxx import clang_ast, walk_json
+    run = ctx.run
+    names = {v['namespace'].split('::')[0] for v in hs.values() if v['namespace']}
+    if len(names) != 1:
+        run.error('C06.odr', 'dznpy.support_files', 'create_header', 'namespaces', f'support headers do not share one top-level namespace: {names}')
+        return
+    top = names.pop()
+    try:
+        objs = clang_ast(sc, 'odr.cc', allinc, top)
+    except AnalysisError as exc:
+        run.error('C06.odr', 'dznpy.support_files', 'create_header', 'clang AST', str(exc))
+        return
+    seen = set()
+    n_defs = 0
+    offenders = []
+    members: List[str] = []
+
+    def visit_ns(ns_node, path):
+        nonlocal n_defs
+        for d in ns_node.get('inner', []) or []:
+            k = d.get('kind')
+            if k == 'NamespaceDecl':
+                visit_ns(d, path + [d.get('name', '(anonymous)')])
+                continue
+            if d.get('id') in seen:
+                continue
+            seen.add(d.get('id'))
+            members.append(k)
+            internal = '(anonymous)' in path or d.get('storageClass') == 'static'
+            if k in ('FunctionDecl', 'CXXMethodDecl', 'CXXConstructorDecl', 'CXXDestructorDecl'):
+                has_body = any(c.get('kind') == 'CompoundStmt' for c in d.get('inner', []) or [])
+                if not has_body:
+                    continue
+                n_defs += 1
+                if not (d.get('inline') or d.get('constexpr') or internal):
+                    offenders.append(f"function {'::'.join(path + [d.get('name', '?')])}")
+            elif k == 'VarDecl':
+                if 'init' not in d and not any(c for c in d.get('inner', []) or []):
+                    continue
+                n_defs += 1
+                qt = d.get('type', {}).get('qualType', '')
+                if not (d.get('inline') or d.get('constexpr') or internal or qt.startswith('const ')):
+                    offenders.append(f"variable {'::'.join(path + [d.get('name', '?')])}")
+
+    for o in objs:
+        if o.get('kind') == 'NamespaceDecl' and o.get('name') == top:
+            visit_ns(o, [top])
+    run.add('C06.odr', 'dznpy.support_files', 'create_header', f'namespace-scope definitions in the six support headers: {offenders or "none offending"}',
+            not offenders,
+            'every namespace-scope definition in the support headers is a template, inline, constexpr or internal' if not offenders else
+            f'{", ".join(offenders)}: defined in a header without `inline`; two translation units that include it (the shell source and '
+            f'any user file including the shell header) violate the one-definition rule and fail to link')
+    run.stats['odr_namespace_scope_definitions_seen'] = n_defs
+    run.stats['odr_namespace_members_seen'] = len(members)
+    if len(members) < 12:
+        run.error('C06.odr', 'dznpy.support_files', 'create_header', 'namespace members',
+                  f'only {len(members)} declarations found in namespace {top} (the six headers declare 15+ templates / classes)')
